@@ -146,7 +146,17 @@ def urlHandle (toks impl : List String) : Option Result := do
          tag := "c10url:" ++ toString (min calls.length 5) ++ ":t" ++ toString (min nT 3) ++ (if late then ":late" else "") ++
                 ":p" ++ toString (min s.pool.length 3) }
 
+/-- `c10closeidle`: one forced schedule of `CloseIdleConnections` against a concurrent release (harness/c10idle.go).
+The expectation is what the pool model's `closeIdle` (copy of the idle list, pool emptied under the lock) gives for it:
+both connections idle at the call are closed, the one released meanwhile is pooled and open, count = idle = 1, the next
+call reuses it (3 dials in all).  A scenario, not a theorem. -/
+def closeIdleExpected : List String := ["1", "1", "0", "1", "1", "ok", "3"]
+
 def handle : Handler
+  | ["c10closeidle"], impl =>
+    some { out := closeIdleExpected, spec := impl == closeIdleExpected,
+           specNote := "connections idle at the call are closed, a connection released meanwhile stays pooled and open, gauges agree, next call reuses it",
+           tag := "c10closeidle" }
   | "c10url" :: toks, impl => urlHandle toks impl
   | "c10seq" :: max :: wait :: _n :: reqs, impl => do
     let max ← nat? max
